@@ -120,12 +120,12 @@ func digestChain(v ssa.Value) hashChain {
 		hc.Err = "digest array not local"
 		return hc
 	}
-	sts := storesTo(al)
+	sts := reachingStoresAt(sl, al)
 	if 1 != len(sts) {
 		hc.Err = "digest array written more than once"
 		return hc
 	}
-	hcall, ok := sts[0].Val.(*ssa.Call)
+	hcall, ok := stripConv(resolveCell(sts[0].Val), false).(*ssa.Call)
 	if !ok {
 		hc.Err = "digest is not a hash call"
 		return hc
